@@ -44,7 +44,7 @@ def int_arg(val: Any, default: int | None = None) -> int:
     """Return _val_ as an int, or _default_ if _val_ can't be cast to an int."""
     try:
         return to_int(val)
-    except ValueError as err:
+    except (ValueError, TypeError, OverflowError) as err:
         if default is not None:
             return default
         raise LiquidTypeError(
